@@ -204,12 +204,14 @@ func (c *Ctx) call(in ssa.Instruction, cc *ssa.CallCommon, st *State, deferred b
 	}
 	// ---- contract application
 	env := c.calleeEnv(id, con, args, st)
+	var preAll []string
 	for i, r := range con.Requires {
 		label := r.Label
 		if label == "" {
 			label = fmt.Sprint(i + 1)
 		}
 		cond := c.evalBool(r.E, env, "callee requires")
+		preAll = append(preAll, cond)
 		c.addObl("G", fmt.Sprintf("%s.%s.pre[%s]", c.fnName(), site, label), cond, r.Src)
 	}
 	pre := st.clone()
@@ -242,8 +244,10 @@ func (c *Ctx) call(in ssa.Instruction, cc *ssa.CallCommon, st *State, deferred b
 		results = []*Val{res}
 	}
 	c.bindResults(env, id.sig, results, con.Names)
+	preCond := c.defineBool("pre", sAnd(preAll...))
 	for _, e := range con.Ensures {
-		c.assumeHere(c.evalBool(e.E, env, "callee ensures"))
+		// a contract promises its postcondition only when its precondition held
+		c.assumeHere(sImp(preCond, c.evalBool(e.E, env, "callee ensures")))
 	}
 	if con.Opts["noreturn"] == "true" {
 		c.curReach = "false"
